@@ -198,33 +198,34 @@ func distPointToSegment(p, segStart, segEnd Point) float64 {
 	v := pointSubtract(segEnd, segStart)
 	w := pointSubtract(p, segStart)
 
-	// The dot products below overflow (or underflow to zero) for coordinate
-	// differences beyond about 1e154 (below 1e-154). In that case the two
-	// difference vectors are first scaled by a power of two, which is exact,
-	// and the result is scaled back.
-	e := 0
-	if m := math.Max(math.Max(math.Abs(v.X), math.Abs(v.Y)), math.Max(math.Abs(w.X), math.Abs(w.Y))); (m > 1e150 || (m > 0 && m < 1e-150)) && !math.IsInf(m, 0) {
-		_, e = math.Frexp(m)
-		v = Point{X: math.Ldexp(v.X, -e), Y: math.Ldexp(v.Y, -e)}
-		w = Point{X: math.Ldexp(w.X, -e), Y: math.Ldexp(w.Y, -e)}
+	// Coordinate differences at the end of the float64 range (beyond 1e307)
+	// overflow themselves or in the sums below: the figure is then scaled by
+	// one eighth, which is exact, and the result scaled back.
+	scale := 1.
+	if m := math.Max(math.Max(math.Abs(v.X), math.Abs(v.Y)), math.Max(math.Abs(w.X), math.Abs(w.Y))); m > 1e307 {
+		v = Point{X: segEnd.X/8 - segStart.X/8, Y: segEnd.Y/8 - segStart.Y/8}
+		w = Point{X: p.X/8 - segStart.X/8, Y: p.Y/8 - segStart.Y/8}
+		scale = 8
 	}
 
-	// The distances are formed from w (= p - segStart) and v with math.Hypot:
-	// squaring a component that is far smaller than the other one (a segment
-	// reaching out to 1e200 next to ordinary coordinates) underflows to zero,
-	// and a vertex 100 units off such a segment was "on" it.
-	c1 := dot(w, v)
-	if c1 <= 0. {
-		return math.Ldexp(math.Hypot(w.X, w.Y), e) // the distance to segStart
+	// The point is projected on the unit vector along the segment. No
+	// product of two differences is formed: such products overflow beyond
+	// 1e154 and underflow below 1e-154, and rescaling v and w together (an
+	// earlier repair) lost a small w next to a very long v
+	// ({{0,0},{1e-100,0},{0,1e300}}.Simplify(0) dropped the middle vertex).
+	l := math.Hypot(v.X, v.Y)
+	if l == 0 {
+		return scale * math.Hypot(w.X, w.Y) // the segment is a point
 	}
-
-	c2 := dot(v, v)
-	if c2 <= c1 {
-		return math.Ldexp(math.Hypot(w.X-v.X, w.Y-v.Y), e) // the distance to segEnd
+	ux, uy := v.X/l, v.Y/l
+	t := w.X*ux + w.Y*uy // the position of the projection along the segment
+	if t <= 0 {
+		return scale * math.Hypot(w.X, w.Y) // the distance to segStart
 	}
-
-	b := c1 / c2
-	return math.Ldexp(math.Hypot(w.X-b*v.X, w.Y-b*v.Y), e)
+	if t >= l {
+		return scale * math.Hypot(w.X-v.X, w.Y-v.Y) // the distance to segEnd
+	}
+	return scale * math.Abs(w.X*uy-w.Y*ux)
 }
 
 func pointSubtract(p1, p2 Point) Point {
